@@ -44,6 +44,8 @@ COMPONENTS = {"real": ["litex.soc.cores.uart.RS232PHYTX/RS232PHYRX/RS232ClkPhase
 CHUNK = 4
 
 
+SEEDED_SCALE = {"quick": 4, "thorough": 5}      # multiplies the run counts of the sampled families in plan()
+
 def plan(tier):
     if tier == "quick":
         return [("uart_tx", 40), ("uart_rx", 50), ("spi", 80), ("timer", 60), ("watchdog", 40), ("pwm", 20), ("timeline", 60), ("i2c", 120)]
